@@ -1087,6 +1087,22 @@ fn systematic_lane(thorough: bool, out: &mut Partial) {
     let mut rng = Rng::new(0xC20);
     let cat = catalog(thorough);
     let mut uid = 0i64;
+    // boundary shape: an event without any field (a heartbeat) next to an ordinary one, in every
+    // event-holding component
+    for comp in COMPONENTS.iter() {
+        uid += 1;
+        let mut e = Event::new_at("Reading", ts_ms(1234));
+        e.data.insert("uid".into(), Value::Int(uid));
+        e.data.insert("marker".into(), Value::Bool(true));
+        let bare = Event::new_at("Heartbeat", ts_ms(1235));
+        let mut originals = HashMap::new();
+        originals.insert(uid, e.clone());
+        let outer = comp.starts_with("outer.") || uid % 2 == 0;
+        let cp = synthesise(&mut rng, &[e.clone(), bare], &[*comp], outer, &[]);
+        let ctx = json!({"value_name": "event-without-fields", "component": comp, "wrapped_in_Checkpoint.context_states": outer});
+        check_case(Case { cp, originals: &originals, pair_types: None, lane: "systematic", context: ctx }, out);
+        out.add("systematic_cases", 1);
+    }
     for (name, v) in &cat {
         for comp in COMPONENTS.iter().chain(["variables"].iter()) {
             for ts_kind in ["ms-aligned", "sub-ms"] {
